@@ -280,15 +280,19 @@ func TestCheck(t *testing.T) {
 	c.Assumptions = []string{
 		"meta client = thin view over a real meta.Data (DeleteShardGroup/PruneShardGroups are the real Data methods) with injected errors; store is a recording stub",
 		"time is the synctest bubble clock: the tick lands 1ns before, at, and 1ns after the expiry boundary",
-		"the write-time cut-off clause of C17 is decided by the C08 check (dropped iff older than now-duration)",
+		"write-time cut-off: real PointsWriter.MapShards over a real meta.Data at a fixed bubble time; batches of <=2 (3 thorough) timestamps (the C08 check enumerates the same clause over metadata histories)",
 	}
 	b := body(t)
 	if *replayFile != "" {
-		tape, err := report.LoadTape(*replayFile)
+		rp, err := report.LoadReplay(*replayFile)
 		if err != nil {
 			t.Fatal(err)
 		}
-		out, tp := explore.Replay(tape, b)
+		rb := b
+		if rp.Scenario == "write-cutoff" {
+			rb = cutoffBody(t, 3)
+		}
+		out, tp := explore.Replay(rp.Tape, rb)
 		fmt.Println(strings.Join(tp.Labels(), " "))
 		fmt.Printf("outcome: %+v\n", out)
 		if out.Violation != "" {
@@ -298,6 +302,8 @@ func TestCheck(t *testing.T) {
 	}
 	r := explore.Explore(explore.Config{Bound: -1, Workers: 16}, b)
 	c.AddExplore("retention-service", r, nil)
+	r2 := explore.Explore(explore.Config{Bound: -1, Workers: 16}, cutoffBody(t, c.Pick(2, 3)))
+	c.AddExplore("write-cutoff", r2, nil)
 	report.ExitCode = c.Finish()
 }
 
